@@ -46,8 +46,16 @@ def learn_vocab(module):
 
 
 def _canon(AHP, s):
+    """canonical spelling of a style text; the element it is read from is edited in place afterwards (it may be the first
+    parse of that text)"""
     try:
-        return str(AHP.AdvancedTag('div', [('style', s)]).style)
+        t = AHP.AdvancedTag('div', [('style', s)])
+        c = str(t.style)
+        t.style.setProperty('noise-prop', '0')
+        t.style.color = 'noise-red'
+        for n in [x.split(':')[0].strip() for x in c.split(';') if ':' in x][1:]:
+            t.style.setProperty(n, '')
+        return c
     except Exception:
         return ''
 
